@@ -22,8 +22,10 @@ import (
 //
 // Every case runs in its own child process (the test binary re-executed with
 // VERIF_C18_CHILD set): a panic that escapes a background goroutine kills the
-// process, and a bubble whose goroutines never stop cannot be left — both must
-// be observed as verdicts, not suffered.  The child writes check-points of its
+// process (none does on the current tree; it did before the ticker, worker-group
+// and coordinator fixes, and the check must see it if one of them regresses), and
+// a bubble whose goroutines never stop cannot be left — both must be observed as
+// verdicts, not suffered.  The child writes check-points of its
 // observation to a file; the parent adds how the child ended.
 
 type c18Input struct {
@@ -44,6 +46,7 @@ type c18Input struct {
 	CoolDownNs int64 `json:"coolDownNs"`
 	IntervalNs int64 `json:"intervalNs"` // tick interval of the flow that owns PanicSite
 	Services   int   `json:"services"`   // recoverers per plugin
+	AuxMax     int   `json:"auxMax"`     // helper goroutines the services of one plugin own together
 }
 
 type c18Impl struct {
@@ -71,6 +74,9 @@ type c18Impl struct {
 	Note            string         `json:"note,omitempty"`
 }
 
+// helper goroutines owned by services: coordinator 2 cache GCs, runner 1 cache GC + WorkerGroup.run (runProcessing) + runQueuing
+const c18AuxMax = 5
+
 const c18Services = 10 // len(allSvcs) in plugin.newPlugin: 3 log flows, retry, result store, metadata store, coordinator, runner, 2 conditional flows
 
 func c18Interval(site string) int64 {
@@ -91,6 +97,7 @@ func c18Fill(in c18Input) c18Input {
 	in.CoolDownNs = int64(service.PanicRestartWait)
 	in.IntervalNs = c18Interval(in.PanicSite)
 	in.Services = c18Services
+	in.AuxMax = c18AuxMax
 	if in.PanicSite == c18SitePipeline || in.PanicSite == c18SitePost {
 		if in.Work == 0 {
 			in.Work = 2
